@@ -523,9 +523,14 @@ MANIFEST = dict(
               "dispatch into an exception monad) against an independent typed C semantics + differential test of model, "
               "specification, gcc and the real parser on random expression trees",
     text="Full on the stated sub-class, refuted outside it. Proved: _c_div is C's truncating division and the % branch C's "
-         "remainder; whenever the C evaluation of an expression is defined and involves no conversion that changes a value "
-         "and no unsigned wrap-around (exact flag of Spec.c_eval), cffi's evaluator returns the C value (C09_agree_partial). "
-         "The full statement is false (C09_refuted: 0u - 1, 0xFFFFFFFF + 1, -0x80000000): known finding unsigned_arith.",
+         "remainder (C09_c_div_is_quot, C09_rem_law); every expression tree over earlier constants, numeric literals, character "
+         "constants of one (possibly escaped) character, unary + - and the ten binary operators whose C evaluation is defined "
+         "and involves no value-changing conversion and no unsigned wrap-around is ACCEPTED by cffi and evaluates to the C "
+         "value, for every table of earlier constants that agrees with C (C09_accepted_with_C_value_partial); without the "
+         "restriction on character constants the only other outcome is a CDefError for multi-digit octal/hex escapes "
+         "(C09_agree_partial, C09_literals_strong). The full statement is false (C09_refuted: 0u - 1, 0xFFFFFFFF + 1, "
+         "-0x80000000): known finding unsigned_arith. Contexts (array length, enumerator, bitfield width, #define, static "
+         "const, the three modes) are tested, not modelled.",
     note="Trusted: Coq kernel; translator c09_regen.py; hand model of literal scanning (tied by differential test); Spec.v "
          "validated against gcc; LP64 only.",
     design_ref="DESIGN.md §4 C09")
